@@ -101,7 +101,7 @@ Lemma restore_gateway_writes c n g : tr_writes (restore_gateway c n g) = [] \/ t
 Proof. unfold restore_gateway, finalise_routes. destruct (negb (tc_refs c)); [auto|]. destruct (tc_gateway_fails c); [auto|].
   destruct (n_route n); destruct (with_grace _ _ _ _ _); cbn; auto. Qed.
 Lemma remove_canary_writes c n g : tr_writes (remove_canary_service c n g) = [] \/ tr_writes (remove_canary_service c n g) = [WDeleteCanarySvc].
-Proof. unfold remove_canary_service. destruct (negb (tc_refs c)); [auto|]. destruct (with_grace _ _ _ _ _). cbn. destruct (n_canary_svc n); auto. Qed.
+Proof. unfold remove_canary_service. destruct (negb (tc_refs c)); [auto|]. destruct (tc_only_traffic c); [auto|]. destruct (with_grace _ _ _ _ _). cbn. destruct (n_canary_svc n); auto. Qed.
 
 (* result of a reconcile in the finalising phase *)
 Lemma finalise_tr_step t u w br r wr n g done o :
